@@ -388,7 +388,7 @@ func runHarness(prog *ssa.Program, fn *ssa.Function, hc *HarnessCfg, known []Kno
 				}
 				if z == nil {
 					bin := z3bin
-					if hc.Solver != "" {
+					if hc.Solver != "" && os.Getenv("GOSYM_FORCE_SOLVER") == "" {
 						bin = hc.Solver
 					}
 					z = NewSolver(bin, qTimeout)
